@@ -160,6 +160,12 @@ func runC06(c *Ctx) {
 	ruleOneCache(c)
 	// "at the same deadline whatever ...": the handler does not end a drain when its context is cancelled (listener closed on reload)
 	ruleSurvive(c)
+	// every accepted connection is handled by its own goroutine: a probe whose handler was given a later connection is never
+	// read, never timed out and never closed
+	ruleLoopVar(c, "OWNCONN", "service")
+	// concurrent copies of one handshake: the history lookup and insert are one critical section, so exactly one is served
+	// and the others are absorbed
+	ruleAtomic(c, "ATOMIC", map[string]bool{"(*service.ReplayCache).Add": true})
 }
 
 // C06.RACEFREE: the shared components the authentication code touches (key list, key entries, replay history) obey their lock
